@@ -29,6 +29,7 @@ pub const K_SUBOP_BEGIN: u32 = 114;
 pub const K_SUBOP_END: u32 = 115;
 pub const K_UNIX: u32 = 116;
 pub const K_FLUSH_RET: u32 = 117;
+pub const K_THREAD_PANIC: u32 = 118;
 
 
 pub use crate::simcfg::*;
@@ -52,6 +53,7 @@ enum Status {
 }
 
 struct Th {
+    panicked: bool,
     status: Status,
     cv: Arc<Condvar>,
     role: Role,
@@ -461,6 +463,7 @@ fn spawn_inner(name: String, f: Box<dyn FnOnce() + Send + 'static>, from_sim: bo
         tid = st.threads.len();
         let prio = 1_000_000 + (xorshift(&mut st.rng) % 1_000_000);
         st.threads.push(Th {
+            panicked: false,
             status: Status::Runnable,
             cv: Arc::new(Condvar::new()),
             role: role_of_name(&name),
@@ -492,7 +495,22 @@ fn spawn_inner(name: String, f: Box<dyn FnOnce() + Send + 'static>, from_sim: bo
                     };
                 }
             }
-            let _ = std::panic::catch_unwind(std::panic::AssertUnwindSafe(f));
+            if let Err(p) = std::panic::catch_unwind(std::panic::AssertUnwindSafe(f)) {
+                if !p.is::<SimExit>() {
+                    // a library thread (collector, flush helper) or a program thread died of a panic
+                    let msg = if let Some(s) = p.downcast_ref::<&str>() {
+                        s.to_string()
+                    } else if let Some(s) = p.downcast_ref::<String>() {
+                        s.clone()
+                    } else {
+                        "panic".to_string()
+                    };
+                    let mut g = lock_st();
+                    g.threads[tid].panicked = true;
+                    g.panics.push((tid, msg));
+                    g.push_ev(tid, K_THREAD_PANIC, tid as u64, 0);
+                }
+            }
         })
         .expect("spawn os thread");
     std::thread::Builder::new()
@@ -541,12 +559,13 @@ fn h_spawn(name: String, f: Box<dyn FnOnce() + Send + 'static>) -> u64 {
     tid
 }
 
-fn h_join(t: u64) {
+/// returns true if the joined thread died of a panic (std's join would return Err)
+fn h_join(t: u64) -> bool {
     loop {
         let mut st = lock_st();
         let me = st.me();
         if st.threads[t as usize].status == Status::Finished {
-            return;
+            return st.threads[t as usize].panicked;
         }
         st.tick();
         st.push_ev(me, K_JOIN_WAIT, t, 0);
@@ -669,7 +688,7 @@ pub fn spawn(name: &str, f: Box<dyn FnOnce() + Send + 'static>) -> u64 {
     h_spawn(name.to_string(), f)
 }
 
-pub fn join(t: u64) {
+pub fn join(t: u64) -> bool {
     h_join(t)
 }
 
